@@ -267,7 +267,7 @@ package eval
 //@   use dslContext
 //@   ensures* never.nil: result != nil
 //@   ensures* innermost.expression: len(Context.Stack) > 0 && Context.Stack[len(Context.Stack) - 1] != nil ==> result == Context.Stack[len(Context.Stack) - 1]
-//@   ensures* top.when.empty: len(Context.Stack) == 0 ==> typeIs(result, TopExpr)
+//@   ensures* top.when.empty: len(Context.Stack) == 0 || Context.Stack[len(Context.Stack) - 1] == nil ==> typeIs(result, TopExpr)
 //@   modifies nothing
 //@ func (*DSLContext).Record
 //@   params c err
